@@ -22,3 +22,27 @@ func H_C16_uu(p int, spare int) {
 	vAssert("caller-bytes-untouched", string(buf[:p]) == snap)
 	vReach("urn", f == FormatURN)
 }
+
+// the caller's buffer is the result of an earlier call: the earlier bytes stay what they were and the new text
+// follows them
+//
+//verif:harness C16 quick
+func H_C16_uuChain() {
+	id1 := ID{Higher: vU64("hi1"), Lower: vU64("lo1")}
+	id2 := ID{Higher: vU64("hi2"), Lower: vU64("lo2")}
+	f1, f2 := Format(0), Format(0)
+	if vBool("urn1") {
+		f1 = FormatURN
+	}
+	if vBool("urn2") {
+		f2 = FormatURN
+	}
+	a, _ := DefaultFormatter(nil, id2, f2)
+	alone := string(a)
+	first, err1 := DefaultFormatter(nil, id1, f1)
+	snap := string(first)
+	second, err2 := DefaultFormatter(first, id2, f2)
+	vAssert("no-error", err1 == nil && err2 == nil)
+	vAssert("earlier-text-kept-and-new-text-appended", string(second) == snap+alone)
+	vAssert("earlier-result-untouched", string(first) == snap)
+}
